@@ -209,8 +209,8 @@ def plan(tier, seed, scale):
     kmax = 3 if tier == "quick" else 4
     for i in range(K):
         tasks.append({"name": "atoms-%d" % i, "kind": "atoms", "kmax": kmax, "i": i, "k": K})
-    n_mut = int((30000 if tier == "quick" else 600000) * scale)
-    n_txt = int((20000 if tier == "quick" else 400000) * scale)
+    n_mut = int((30000 if tier == "quick" else 250000) * scale)
+    n_txt = int((20000 if tier == "quick" else 160000) * scale)
     for i in range(K):
         tasks.append({"name": "mut-%d" % i, "kind": "mut", "n": max(n_mut // K, 10), "shard": i})
         tasks.append({"name": "text-%d" % i, "kind": "text", "n": max(n_txt // K, 10), "shard": i})
